@@ -994,6 +994,84 @@ func (c *Conn) SealFrame(body []byte, contentRelated bool) []byte {
 	return c.seal(id, seq, body)
 }
 
+// MangledFrame builds, instead of a genuine message carrying body, what an attacker on the path (flip, truncate,
+// append, garbage, rekey, reflect) or a key holder that breaks the rules (evenid, badlen) would hand the client.
+// Every one of them fails at least one of the acceptance conditions of an incoming packet.
+func (c *Conn) MangledFrame(body []byte, op string, a, b int, rnd []byte) []byte {
+	if c.key == nil {
+		return nil
+	}
+	c.S.mu.Lock()
+	seq := c.nextSeq(true)
+	c.S.mu.Unlock()
+	id := c.S.nextMsgID(1)
+	noise := func(n int) []byte {
+		var out []byte
+		for i := 0; len(out) < n; i++ {
+			out = append(out, ref.SHA1(rnd, []byte{byte(i), byte(i >> 8)})...)
+		}
+		return out[:n]
+	}
+	env := ref.Envelope{Salt: c.key.Salt, Session: c.Session, MsgID: id, SeqNo: seq, Body: body}
+	pad := noise(16)
+	good := ref.Seal(c.key.AuthKey, env, 8, pad)
+	var f []byte
+	switch op {
+	case "flip":
+		f = good
+		bit := a % (len(f) * 8)
+		f[bit/8] ^= 1 << (bit % 8)
+	case "truncate":
+		n := a % len(good) / 4 * 4
+		if n < 4 {
+			n = 4
+		}
+		f = good[:n]
+	case "append":
+		// not a whole number of blocks: a whole extra block is only more padding to the acceptance conditions
+		f = append(good, noise([]int{4, 8, 12, 20, 24, 28}[a%6])...)
+	case "garbage":
+		f = append(append([]byte{}, ref.AuthKeyID(c.key.AuthKey)...), noise(16*(1+a%8)+16)...)
+	case "rekey":
+		other := append([]byte{}, c.key.AuthKey...)
+		other[8+a%128] ^= 1 << (b % 8) // within the 128 bytes the server-to-client key derivation reads
+		f = ref.Seal(other, env, 8, pad)
+		copy(f[:8], ref.AuthKeyID(c.key.AuthKey))
+	case "reflect":
+		f = ref.Seal(c.key.AuthKey, env, 0, pad)
+	case "evenid":
+		env.MsgID = env.MsgID&^3&^(-1<<63) | int64(a&1)<<1
+		if b&1 == 1 {
+			env.MsgID |= -1 << 63
+		}
+		f = ref.Seal(c.key.AuthKey, env, 8, pad)
+	case "badlen":
+		pt := make([]byte, 0, 64+len(body))
+		pt = binary.LittleEndian.AppendUint64(pt, uint64(env.Salt))
+		pt = binary.LittleEndian.AppendUint64(pt, uint64(env.Session))
+		pt = binary.LittleEndian.AppendUint64(pt, uint64(env.MsgID))
+		pt = binary.LittleEndian.AppendUint32(pt, uint32(env.SeqNo))
+		pt = binary.LittleEndian.AppendUint32(pt, 0)
+		pt = append(pt, body...)
+		for i := 0; len(pt)%16 != 0; i++ {
+			pt = append(pt, pad[i%16])
+		}
+		area := int64(len(pt) - 32)
+		ls := []int64{-1 << 31, -1, -32, -33, 1<<31 - 1, 1 << 30, area + 1, area + 4, area + 16, area + 33}
+		l := ls[a%len(ls)]
+		binary.LittleEndian.PutUint32(pt[28:], uint32(int32(l)))
+		hl := len(pt)
+		if b&1 == 1 {
+			hl = 32
+		}
+		f = ref.SealRaw(c.key.AuthKey, pt, hl, 8)
+	default:
+		return nil
+	}
+	c.S.log(Event{Kind: "sent", Conn: c.ID, MsgID: id, SeqNo: seq, Len: len(body), Note: "raw"})
+	return f
+}
+
 // SendRawEncrypted seals an arbitrary body with explicit msg_id/seq_no (for hostile histories).
 func (c *Conn) SendRawEncrypted(msgID int64, seqNo int32, body []byte) {
 	if c.key == nil {
